@@ -7,7 +7,7 @@ cd "$WT" || exit 3
 git checkout -q -- . ; 
 DEMO=$(ls "$OUT"/demo/*_test.go | head -1)
 PKG=$(grep -m1 "^package " "$DEMO" | awk '{print $2}')
-case "$PKG" in minter) PDIR=coreV2/minter;; tests) PDIR=tests;; *) PDIR=$(grep -rl --include=*.go "^package $PKG\$" . | grep -v OUT | head -1 | xargs dirname);; esac
+case "$PKG" in events_test) PDIR=coreV2/events;; minter) PDIR=coreV2/minter;; tests) PDIR=tests;; *) PDIR=$(grep -rl --include=*.go "^package $PKG\$" . | grep -v OUT | head -1 | xargs dirname);; esac
 TESTFN=$(grep -ho "^func Test[A-Za-z0-9_]*" "$OUT"/demo/*_test.go | sed 's/func //' | paste -sd'|')
 DEST=""
 for f in "$OUT"/demo/*_test.go; do cp "$f" "$PDIR/"; DEST="$DEST $PDIR/$(basename $f)"; done
